@@ -36,12 +36,16 @@ import (
 // histories
 
 type Op struct {
-	Kind   string `json:"kind"` // bc|conf|block|tickwait|wcall|wret|whand|wdone|stop
-	Tx     int    `json:"tx,omitempty"`
-	Out    string `json:"out,omitempty"`    // accept|unknown|invalid|fee|mempool|confirmed|other
+	Kind string `json:"kind"` // bc|conf|block|tickwait|wcall|wret|whand|wdone|stop|bcstart|bcret
+	Tx   int    `json:"tx,omitempty"`
+	// Out is the class the scripted network reply stands for; R selects the
+	// reject message (code + reason text as real peers word it) that the
+	// callback turns into its error with the real pushtx.ParseBroadcastError.
+	Out    string `json:"out,omitempty"` // accept|unknown|invalid|fee|mempool|confirmed|other
+	R      int    `json:"r,omitempty"`
 	Expect bool   `json:"expect,omitempty"` // wcall: a worker call is expected (long deadline)
 	// observations
-	Obs  string `json:"obs,omitempty"` // none|ret|confd|confquit|trig|sent|ans|hand|done|stop
+	Obs  string `json:"obs,omitempty"` // none|ret|confd|confquit|trig|sent|ans|hand|done|stop|held|stopbc|ansh
 	OTx  int    `json:"otx,omitempty"`
 	ORet string `json:"oret,omitempty"` // nil|stopped|unknown|invalid|fee|mempool|confirmed|other
 }
@@ -50,7 +54,7 @@ type PeerScript struct {
 	Beh    string `json:"beh"` // silent|getdata|getdata_reject|reject_only|getdata_other|reject_otherhash|getdata2_reject
 	RCode  uint8  `json:"rcode,omitempty"`
 	Reason string `json:"reason,omitempty"`
-	Class  int    `json:"class"` // observation: pushtx.ParseBroadcastError class of (rcode, reason)
+	Class  int    `json:"class"` // the class this (rcode, reason) stands for (hand-written expectation)
 }
 
 type History struct {
@@ -71,20 +75,50 @@ type History struct {
 
 var outNames = []string{"accept", "unknown", "invalid", "fee", "mempool", "confirmed", "other"}
 
-func outErr(out string) error {
-	switch out {
-	case "accept":
+// rejectTexts: per class, reject messages as btcd / bitcoind peers word
+// them (with the txids, outpoints and numeric prefixes they add).
+var rejectTexts = map[string][]struct {
+	code   wire.RejectCode
+	reason string
+}{
+	"mempool": {
+		{wire.RejectDuplicate, "already have transaction 4a5e1e4baab89f3a32518a88c31bc87f618f76673e2cc77ab2127b7afdeda33b"},
+		{wire.RejectDuplicate, "txn-already-in-mempool"},
+		{wire.RejectDuplicate, "already have transaction in mempool 0e3e2357e806b6cdb1f70b54c3a3a17b6714ee1f0e68bebb44a74b1efd512098"},
+		{wire.RejectDuplicate, "18: txn-already-in-mempool"},
+	},
+	"confirmed": {
+		{wire.RejectDuplicate, "transaction already exists in blockchain"},
+		{wire.RejectDuplicate, "txn-already-known"},
+		{wire.RejectDuplicate, "transaction already exists"},
+		{wire.RejectDuplicate, "18: txn-already-known (code 18)"},
+	},
+	"invalid": {
+		{wire.RejectInvalid, "bad-txns-inputs-missingorspent"},
+		{wire.RejectNonstandard, "transaction output 0: payment of 100 is dust"},
+		{wire.RejectDuplicate, "output 9b0fc92260312ce44e74ef369f5c66bbb85848f2eddd5a7a1cde251e54ccfdd5:1 already spent by transaction 999e1c837c76a1b7fbb7e57baf87b309960f5ffefbf2a9b95dd890602272f644 in the memory pool"},
+		{wire.RejectDuplicate, "txn-mempool-conflict"},
+		{wire.RejectDuplicate, "18: txn-mempool-conflict (code 18)"},
+	},
+	"fee": {
+		{wire.RejectInsufficientFee, "transaction 4a5e1e4b has 10 fees which is under the required amount of 226"},
+		{wire.RejectInsufficientFee, "min relay fee not met, 100 < 141"},
+	},
+	"unknown": {
+		{wire.RejectMalformed, "tx decode failed"},
+		{wire.RejectDuplicate, "duplicate of something we do not understand"},
+		{wire.RejectObsolete, "obsolete version"},
+	},
+}
+
+// outErr is the error the scripted cfg.Broadcast returns for op.
+func outErr(op *Op) error {
+	if op.Out == "accept" {
 		return nil
-	case "unknown":
-		return &pushtx.BroadcastError{Code: pushtx.Unknown, Reason: "u"}
-	case "invalid":
-		return &pushtx.BroadcastError{Code: pushtx.Invalid, Reason: "i"}
-	case "fee":
-		return &pushtx.BroadcastError{Code: pushtx.InsufficientFee, Reason: "f"}
-	case "mempool":
-		return &pushtx.BroadcastError{Code: pushtx.Mempool, Reason: "m"}
-	case "confirmed":
-		return &pushtx.BroadcastError{Code: pushtx.Confirmed, Reason: "c"}
+	}
+	if l := rejectTexts[op.Out]; len(l) > 0 {
+		m := l[((op.R%len(l))+len(l))%len(l)]
+		return pushtx.ParseBroadcastError(wire.NewMsgReject(wire.CmdTx, m.code, m.reason), "10.1.1.1:18555")
 	}
 	return errors.New("backend failure")
 }
@@ -110,18 +144,21 @@ func classify(err error) string {
 var rejectPool = []struct {
 	code   wire.RejectCode
 	reason string
+	class  int // 0 unknown, 1 invalid, 2 fee, 3 mempool, 4 confirmed
 }{
-	{wire.RejectInvalid, "bad-txns-inputs-missingorspent"},
-	{wire.RejectNonstandard, "dust"},
-	{wire.RejectInsufficientFee, "min relay fee not met"},
-	{wire.RejectDuplicate, "txn-mempool-conflict"},
-	{wire.RejectDuplicate, "txn-already-in-mempool"},
-	{wire.RejectDuplicate, "txn-already-known"},
-	{wire.RejectDuplicate, "output already spent by transaction in the memory pool"},
-	{wire.RejectDuplicate, "already have transaction abc"},
-	{wire.RejectDuplicate, "transaction already exists"},
-	{wire.RejectDuplicate, "something else"},
-	{wire.RejectMalformed, "malformed"},
+	{wire.RejectInvalid, "bad-txns-inputs-missingorspent", 1},
+	{wire.RejectNonstandard, "transaction output 0: payment of 100 is dust", 1},
+	{wire.RejectInsufficientFee, "min relay fee not met, 100 < 141", 2},
+	{wire.RejectDuplicate, "txn-mempool-conflict", 1},
+	{wire.RejectDuplicate, "txn-already-in-mempool", 3},
+	{wire.RejectDuplicate, "txn-already-known", 4},
+	{wire.RejectDuplicate, "output 9b0fc922:1 already spent by transaction 999e1c83 in the memory pool", 1},
+	{wire.RejectDuplicate, "already have transaction 4a5e1e4baab89f3a32518a88c31bc87f618f76673e2cc77ab2127b7afdeda33b", 3},
+	{wire.RejectDuplicate, "transaction already exists in blockchain", 4},
+	{wire.RejectDuplicate, "something else", 0},
+	{wire.RejectMalformed, "malformed", 0},
+	{wire.RejectDuplicate, "already have transaction in mempool 0e3e2357", 3},
+	{wire.RejectDuplicate, "18: txn-already-known (code 18)", 4},
 }
 
 var thresholds = [][2]int{{3, 5}, {1, 2}, {1, 3}, {2, 3}, {1, 1}, {9, 10}, {1, 5}, {3, 4}}
@@ -159,7 +196,7 @@ func genV(r *rand.Rand, id int) History {
 		if flavour == 2 && r.Intn(2) == 0 {
 			rp = rejectPool[r.Intn(2)] // invalid-heavy
 		}
-		p.RCode, p.Reason = uint8(rp.code), rp.reason
+		p.RCode, p.Reason, p.Class = uint8(rp.code), rp.reason, rp.class
 		h.Peers = append(h.Peers, p)
 	}
 	return h
@@ -167,10 +204,10 @@ func genV(r *rand.Rand, id int) History {
 
 func corpusV() []History {
 	gr := func(i int) PeerScript {
-		return PeerScript{Beh: "getdata_reject", RCode: uint8(rejectPool[i].code), Reason: rejectPool[i].reason}
+		return PeerScript{Beh: "getdata_reject", RCode: uint8(rejectPool[i].code), Reason: rejectPool[i].reason, Class: rejectPool[i].class}
 	}
 	g := PeerScript{Beh: "getdata"}
-	ro := PeerScript{Beh: "reject_only", RCode: uint8(wire.RejectInsufficientFee), Reason: "insufficient fee"}
+	ro := PeerScript{Beh: "reject_only", RCode: uint8(wire.RejectInsufficientFee), Reason: "insufficient fee", Class: 2}
 	return []History{
 		// F16: one peer fetched and accepted, another only rejected
 		{Family: "v", TNum: 3, TDen: 5, Peers: []PeerScript{g, ro}},
@@ -182,6 +219,13 @@ func corpusV() []History {
 		// all rejected, mixed codes (most rejected wins, tie = any)
 		{Family: "v", TNum: 3, TDen: 5, Peers: []PeerScript{gr(2), gr(2), gr(0)}},
 		{Family: "v", TNum: 3, TDen: 5, Peers: []PeerScript{gr(4), gr(5)}},
+		// every replier already has it (reasons with the txid appended): the
+		// error must carry the Mempool class, which the broadcaster accepts
+		{Family: "v", TNum: 3, TDen: 5, Peers: []PeerScript{gr(7), gr(11), gr(7)}},
+		// every replier says it is in the chain (suffix / numeric prefix)
+		{Family: "v", TNum: 3, TDen: 5, Peers: []PeerScript{gr(8), gr(12)}},
+		// double spend worded by btcd, at the threshold
+		{Family: "v", TNum: 3, TDen: 5, Peers: []PeerScript{gr(6), gr(6), gr(6), g, g}},
 		// nobody asked
 		{Family: "v", TNum: 3, TDen: 5, Peers: []PeerScript{{Beh: "silent"}, ro}},
 		// non-invalid rejections below "all": no error
@@ -273,8 +317,6 @@ func runV(h *History) (fails []c.ImplFailure) {
 	var remotes []net.Conn
 	for i := range h.Peers {
 		p := &h.Peers[i]
-		rj := wire.NewMsgReject(wire.CmdTx, wire.RejectCode(p.RCode), p.Reason)
-		p.Class = int(pushtx.ParseBroadcastError(rj, "x").Code)
 		la := &net.TCPAddr{IP: net.IPv4(10, 9, 9, 9), Port: 40000 + i}
 		ra := &net.TCPAddr{IP: net.IPv4(10, 1, byte(1+h.ID%200), byte(1+i)), Port: 18555}
 		a, b := bufPipe(la, ra)
@@ -361,6 +403,10 @@ func evTerm(op *Op) string {
 		return c.App("EWRet", outTerm(op.Out))
 	case "whand":
 		return "EWHandoff"
+	case "bcstart":
+		return c.App("EBcStart", c.Z(int64(op.Tx)))
+	case "bcret":
+		return c.App("EBcRet", outTerm(op.Out))
 	case "wdone":
 		return "EWDone"
 	case "stop":
@@ -391,6 +437,12 @@ func obsTerm(op *Op) string {
 		return "ODone"
 	case "stop":
 		return "OStop"
+	case "held":
+		return c.App("OBcHeld", c.Z(int64(op.OTx)))
+	case "stopbc":
+		return c.App("OStopBc", c.Z(int64(op.OTx)))
+	case "ansh":
+		return "OAnsH"
 	}
 	panic("obs " + op.Obs)
 }
@@ -416,8 +468,8 @@ func bTerm(h *History) (string, string) {
 	for i := range h.Ops {
 		op := &h.Ops[i]
 		tr = append(tr, c.Pair(evTerm(op), obsTerm(op)))
-		s := map[string]string{"bc": "b", "conf": "c", "block": "B", "tickwait": "T", "wcall": "C", "wret": "r", "whand": "H", "wdone": "D", "stop": "S"}[op.Kind]
-		if op.Kind == "bc" && op.ORet != "nil" {
+		s := map[string]string{"bc": "b", "conf": "c", "block": "B", "tickwait": "T", "wcall": "C", "wret": "r", "whand": "H", "wdone": "D", "stop": "S", "bcstart": "K", "bcret": "k"}[op.Kind]
+		if (op.Kind == "bc" || (op.Kind == "bcret" && op.Obs == "ret")) && op.ORet != "nil" {
 			s = "x"
 		}
 		if op.Obs == "none" {
